@@ -342,6 +342,32 @@ func tableCheck(r *Run, rep *core.Report, rule string, mp *MethodPaths) {
 		cs = append(cs, c)
 	}
 	sort.Strings(cs)
+	// a method whose reference does not depend on the key's state (one row "-": Set stores whatever is there) may be
+	// written so that it does look at the entry (a store through the locked read-modify-write): every row it then has
+	// must carry exactly the reference's outcome
+	if len(want) == 1 && len(want["-"]) > 0 && len(got["-"]) == 0 && len(got) > 0 {
+		refined := map[string][]string{}
+		okRefine := true
+		for c, os := range got {
+			for _, o := range os {
+				found := false
+				for _, o2 := range want["-"] {
+					if mask(mp.Name, "-", o2) == mask(mp.Name, c, o) {
+						found = true
+					}
+				}
+				if !found {
+					okRefine = false
+				}
+			}
+			_ = c
+		}
+		if okRefine {
+			refined["-"] = want["-"]
+			got = refined
+			cs = []string{"-"}
+		}
+	}
 	for _, c := range cs {
 		w := map[string]bool{}
 		for _, o := range want[c] {
